@@ -10,10 +10,11 @@ sys.path.insert(0, ROOT)
 sys.path.insert(0, '/repo')
 
 props = [json.loads(l) for l in open(os.path.join(ROOT, 'properties.jsonl'))]
+claimed = set(open(os.path.join(ROOT, 'CLAIMED')).read().split())
 checks, na = [], []
 for p in props:
 	pid = p['id']
-	if not os.path.exists(os.path.join(ROOT, 'harness', 'props', pid + '.py')):
+	if pid not in claimed or not os.path.exists(os.path.join(ROOT, 'harness', 'props', pid + '.py')):
 		na.append({'property_id': pid, 'reason': 'no theorem/model committed yet for this property in the current state of /verif (planned, see DESIGN.md section 5 %s); not claimed until its check exists' % pid})
 		continue
 	m = importlib.import_module('harness.props.' + pid)
